@@ -144,9 +144,14 @@ func tripCount(l *LoopSum) *Term {
 	return nil
 }
 
-// reduceSeqLen: len(seq with known trip count) -> trip count
+// reduceSeqLen: len(seq with known trip count) -> trip count; len(make([]T, n)) -> n
 func reduceSeqLen(s *Summary) {
 	s.mapTerms(func(t *Term) *Term {
+		if t.Op == "call" && t.Val == "builtin:len" && len(t.Args) == 1 && t.Args[0].Op == "call" && strings.HasPrefix(t.Args[0].Val, "makeslice#") && len(t.Args[0].Args) == 2 {
+			n := *t.Args[0].Args[0]
+			n.Num, n.Int = true, true
+			return &n
+		}
 		if t.Op == "call" && t.Val == "builtin:len" && len(t.Args) == 1 && t.Args[0].Op == "seq" && len(t.Args[0].Args) == 2 {
 			n := *t.Args[0].Args[1]
 			n.Num, n.Int = true, true
@@ -156,7 +161,55 @@ func reduceSeqLen(s *Summary) {
 	})
 }
 
+// concatIdiom: res := make([]T, len(a)+len(b)); copy(res, a); copy(res[len(a):], b)  ==  append(append(empty, a...), b...)
+func concatIdiom(s *Summary) {
+	for i, e := range s.Effects {
+		if e.Kind != "call" || len(e.Args) != 1 || e.Args[0].Op != "call" || e.Args[0].Val != "builtin:copy" || !isTrue(e.Guard) || e.Region != -1 {
+			continue
+		}
+		dst, a := e.Args[0].Args[0], e.Args[0].Args[1]
+		if dst.Op != "call" || !strings.HasPrefix(dst.Val, "makeslice#") {
+			continue
+		}
+		for j, f := range s.Effects {
+			if j == i || f.Kind != "call" || len(f.Args) != 1 || f.Args[0].Op != "call" || f.Args[0].Val != "builtin:copy" || !isTrue(f.Guard) || f.Region != -1 {
+				continue
+			}
+			d2, b := f.Args[0].Args[0], f.Args[0].Args[1]
+			if d2.Op != "slice" || len(d2.Args) < 2 || d2.Args[0] != dst && !(d2.Args[0].Op == "call" && d2.Args[0].Val == dst.Val) {
+				continue
+			}
+			lenA := &Term{Op: "call", Val: "builtin:len", Args: []*Term{a}, Num: true, Int: true}
+			lenB := &Term{Op: "call", Val: "builtin:len", Args: []*Term{b}, Num: true, Int: true}
+			lo, ok1 := canonStr(withInt(d2.Args[1]))
+			wantLo, ok2 := canonStr(lenA)
+			total, ok3 := canonStr(withInt(dst.Args[0]))
+			wantTotal, ok4 := canonStr(&Term{Op: "add", Num: true, Int: true, Args: []*Term{lenA, lenB}})
+			if !ok1 || !ok2 || !ok3 || !ok4 || lo != wantLo || total != wantTotal {
+				continue
+			}
+			repl := &Term{Op: "call", Val: "builtin:append", Args: []*Term{{Op: "copyof", Args: []*Term{a}}, b}}
+			mk := dst.Val
+			var rest []Effect
+			for k, g := range s.Effects {
+				if k != i && k != j {
+					rest = append(rest, g)
+				}
+			}
+			s.Effects = rest
+			s.mapTerms(func(t *Term) *Term {
+				if t.Op == "call" && t.Val == mk {
+					return repl
+				}
+				return nil
+			})
+			return
+		}
+	}
+}
+
 func canonicaliseSequences(s *Summary) {
+	concatIdiom(s)
 	// ---- copies: make(len(src)) + copy(dst, src)  ==  append(empty, src...)
 	for changed := true; changed; {
 		changed = false
